@@ -432,6 +432,38 @@ Definition opened_doc (d : doc) (eid : option oid) (st : estate) : doc :=
      d_objects := norm_objs st (d_objects d);
      d_max_id := match eid with Some e => N.max (d_max_id d) (fst e) | None => d_max_id d end |}.
 
+(* the part that does not depend on the revision: authentication succeeded, decode recovered a state that agrees
+   with the writer's parameters *)
+Lemma lopdf_opens_generic ip fek st eid d ivs pw :
+  aes_ok P -> agree st ip fek -> doc_ok ip d eid ->
+  let D := enc_doc ip (fst (Iso.encrypt_objects I ip fek (d_objects d) ivs)) eid d in
+  authenticate_raw_password P D pw = Ok tt -> decode P D pw = Ok st ->
+  doc_decrypt_raw P D pw = DOk (opened_doc d eid st) st.
+Proof.
+  intros HA AG DK D Hauth Hdec.
+  set (objs := fst (Iso.encrypt_objects I ip fek (d_objects d) ivs)) in *.
+  assert (Hge : get_encrypted D = Some (write_params ip)) by apply get_encrypted_enc_doc.
+  assert (Hkeys : map fst objs = map fst (d_objects d)) by apply iso_encrypt_objects_keys.
+  unfold doc_decrypt_raw, is_encrypted. rewrite Hge. cbn [negb]. rewrite Hauth, Hdec.
+  unfold opened_doc. destruct eid as [[i g]|]; [set (id := (i, g)) in *|]; unfold D, enc_doc;
+    cbn [d_trailer d_objects d_version d_binary_mark d_max_id];
+    change iK_Encrypt with K_Encrypt; rewrite dget_set_same.
+  - assert (Hfresh : ~ In id (map fst (d_objects d))) by (apply (dk_fresh _ _ _ DK); reflexivity).
+    change (fst id, snd id) with id.
+    rewrite decrypt_objects_insert by (rewrite Hkeys; exact Hfresh).
+    unfold objs. rewrite (iso_objects_rt P md5_len _ ip fek (Some id) _ HA AG (dk_objs _ _ _ DK)).
+    2:{ intros s Es. inversion Es; subst s. exact Hfresh. }
+    cbn [rbind].
+    assert (Hfresh2 : ~ In id (map fst (norm_objs st (d_objects d)))).
+    { unfold norm_objs. rewrite map_map. cbn [fst]. exact Hfresh. }
+    rewrite has_objstm_insert_fresh by exact Hfresh2. rewrite has_objstm_norm, (dk_objstm _ _ _ DK).
+    rewrite remove_insert_fresh by exact Hfresh2.
+    rewrite swap_remove_set_fresh by exact (dk_trailer _ _ _ DK). reflexivity.
+  - unfold objs. rewrite (iso_objects_rt P md5_len _ ip fek None _ HA AG (dk_objs _ _ _ DK)) by (intros s Es; discriminate Es).
+    rewrite has_objstm_norm, (dk_objstm _ _ _ DK).
+    rewrite swap_remove_set_fresh by exact (dk_trailer _ _ _ DK). reflexivity.
+Qed.
+
 (* lopdf opens what the standard's writer wrote, for ANY parameters [ip] of revisions 2-4 and key [fek] the
    standard's opening procedure yields for the password *)
 Theorem lopdf_opens_r4 ip fek eid d ivs id0 pw :
@@ -443,33 +475,15 @@ Theorem lopdf_opens_r4 ip fek eid d ivs id0 pw :
   DOk (opened_doc d eid (st_of ip fek)) (st_of ip fek).
 Proof.
   intros HA Hs CO HP HO HU DK Hid Hopen.
-  set (objs := fst (Iso.encrypt_objects I ip fek (d_objects d) ivs)).
-  set (D := enc_doc ip objs eid d).
+  set (D := enc_doc ip (fst (Iso.encrypt_objects I ip fek (d_objects d) ivs)) eid d).
   assert (Hge : get_encrypted D = Some (write_params ip)) by apply get_encrypted_enc_doc.
   assert (HidD : file_id_0 D = Ok id0) by (unfold D; rewrite file_id_enc_doc; exact Hid).
   assert (AG : agree (st_of ip fek) ip fek).
   { apply agree_of_state. apply state_matches_st_of; try assumption.
     apply (open_r4_length ip id0 pw fek Hs HP Hopen). }
-  assert (Hkeys : map fst objs = map fst (d_objects d)) by apply iso_encrypt_objects_keys.
-  unfold doc_decrypt_raw, is_encrypted. rewrite Hge. cbn [negb].
-  rewrite (auth_write D ip id0 pw fek Hge Hs HP HO HU HidD Hopen).
-  rewrite (decode_write D ip id0 pw fek Hge Hs HP HO HU HidD Hopen).
-  unfold opened_doc. destruct eid as [[i g]|]; [set (id := (i, g)) in *|]; unfold D, enc_doc; cbn [d_trailer d_objects d_version d_binary_mark d_max_id];
-    change iK_Encrypt with K_Encrypt; rewrite dget_set_same.
-  - assert (Hfresh : ~ In id (map fst (d_objects d))) by (apply (dk_fresh _ _ _ DK); reflexivity).
-    change (fst id, snd id) with id.
-    rewrite decrypt_objects_insert by (rewrite Hkeys; exact Hfresh).
-    unfold objs. rewrite (iso_objects_rt P md5_len _ ip fek (Some id) _ HA AG (dk_objs _ _ _ DK)).
-    2:{ intros s Es. inversion Es; subst s. exact Hfresh. }
-    cbn [rbind].
-    assert (Hfresh2 : ~ In id (map fst (norm_objs (st_of ip fek) (d_objects d)))).
-    { unfold norm_objs. rewrite map_map. cbn [fst]. exact Hfresh. }
-    rewrite has_objstm_insert_fresh by exact Hfresh2. rewrite has_objstm_norm, (dk_objstm _ _ _ DK).
-    rewrite remove_insert_fresh by exact Hfresh2.
-    rewrite swap_remove_set_fresh by exact (dk_trailer _ _ _ DK). reflexivity.
-  - unfold objs. rewrite (iso_objects_rt P md5_len _ ip fek None _ HA AG (dk_objs _ _ _ DK)) by (intros s Es; discriminate Es).
-    rewrite has_objstm_norm, (dk_objstm _ _ _ DK).
-    rewrite swap_remove_set_fresh by exact (dk_trailer _ _ _ DK). reflexivity.
+  apply (lopdf_opens_generic ip fek (st_of ip fek) eid d ivs pw HA AG DK).
+  - exact (auth_write D ip id0 pw fek Hge Hs HP HO HU HidD Hopen).
+  - exact (decode_write D ip id0 pw fek Hge Hs HP HO HU HidD Hopen).
 Qed.
 
 End DocR4.
